@@ -153,6 +153,18 @@ def check_step(P, S, a, S2, reward, last, ev):
     return out
 
 
+def _mask_respecting(ev):
+    """Was the action of step event `ev` offered by the mask the agent saw? (the statement of C06/C08 is about
+    mask-respecting play; the workload layer normally guarantees it, this is a second line of defence, e.g.
+    for deterministic policies facing an empty mask)."""
+    O0 = ev.O0
+    if O0 is None or "action_mask" not in O0:
+        return True
+    m = np.asarray(O0["action_mask"]).astype(bool)
+    a = int(ev.action)
+    return 0 <= a < len(m) and bool(m[a])
+
+
 def hard_constraints(P, trace):
     out = []
     cap = P.params["cap"]
@@ -162,6 +174,10 @@ def hard_constraints(P, trace):
     if "n_seen" not in sh:
         sh.update(n_seen=1, route=[], load=cap, served=set())
     for ev in trace[sh["n_seen"]:]:
+        if not _mask_respecting(ev):
+            sh["void"] = True
+        if sh.get("void"):
+            break
         a = int(ev.action)
         sh["route"].append(a)
         if a == 0:
@@ -177,6 +193,8 @@ def hard_constraints(P, trace):
             if sh["load"] < 0:
                 out.append(f"load_within_capacity: load carried exceeds capacity {cap} by {-sh['load']} after serving {a} (route {sh['route'][:14]})")
     sh["n_seen"] = len(trace)
+    if sh.get("void"):
+        return []  # a masked-out action was played: outside the statement from here on
     # the same constraints recomputed from the raw state trajectory
     nv = min(int(S["num_total_visits"]), len(S["trajectory"]))
     tr = [int(x) for x in S["trajectory"][:nv]]
@@ -207,6 +225,8 @@ def _completed(P, S):
 
 
 def complete(P, trace):
+    if not all(_mask_respecting(e) for e in trace[1:]):
+        return None
     S = trace[-1].S
     if not _completed(P, S):
         return None
@@ -221,6 +241,8 @@ def complete(P, trace):
 
 
 def objective(P, trace):
+    if not all(_mask_respecting(e) for e in trace[1:]):
+        return None
     S = trace[-1].S
     if not _completed(P, S):
         return None
